@@ -75,11 +75,16 @@ func refBlockContext(proposer []byte, height int64, unixTime int64) ethvm.BlockC
 // seedFromNative copies balance and nonce of every native account into st.
 func seedFromNative(a *App, st *state.StateDB) {
 	a.Core.VerifView().Acct.VerifLedger().VerifConsensusView(func(k ledger.LedgerKey, ac *rctypes.Account) {
-		if len(ac.Address) != 20 {
-			return
+		// an account is what its 32-byte ledger key says (the address right-padded with zeros): that is how the bridge
+		// finds it for a 20-byte EVM address, whatever the length of the address field stored in the record (a refused
+		// transaction with a 19-byte receiver field leaves an empty record under the key of the padded address)
+		for _, b := range k[20:] {
+			if b != 0 {
+				return
+			}
 		}
 		var ad common.Address
-		copy(ad[:], ac.Address)
+		copy(ad[:], k[:20])
 		st.SetBalance(ad, ac.Balance.ToBig())
 		st.SetNonce(ad, ac.Nonce)
 	})
